@@ -59,7 +59,7 @@ Definition plan_and_lookup (arith : bool) (toks : list token) : stage_out :=
   | inl cl => SPlan cl (first_word_lookups arith cl)
   end.
 
-(** Decidable: some planned command has no words. *)
+(** Decidable: some planned command has no words (cannot happen after baff407: [plan_full]). *)
 Definition plans_empty_command (cl : cmdline) : bool := existsb no_words (cl_cmds cl).
 
 (** A token that certainly stays a word of its command: quoted, or free of
@@ -97,34 +97,30 @@ Definition last_guarded {A} (r : list A) : res (option A) :=
   if is_empty r then Ok None
   else match nth_error r (length r - 1) with Some x => Ok (Some x) | None => Panic 461 end.
 
-(** * The planner with the proposed repair (notes/C05-fix-1.patch):
-    [CommandLine::from_line] rejects a command that is left without words
-    (error "syntax error: empty command"). Same glue as [plan_tokens]. *)
-Inductive perr2 := P2 (e : perr) | PEmptyCmd.
-
-Fixpoint map_cmds_fixed (l : list (list token)) : list command + perr2 :=
+(** * The planner BEFORE fix baff407 (no empty-command check), kept to state that the
+    repair changed nothing where no command was wordless ([plan_old_conservative]) and
+    as a regression witness of what the unrepaired code did. *)
+Fixpoint map_cmds_old (l : list (list token)) : list command + perr :=
   match l with
   | [] => inl []
   | t :: r => match from_tokens t with
-              | inr e => inr (P2 e)
-              | inl c => if no_words c then inr PEmptyCmd
-                         else match map_cmds_fixed r with inl cs => inl (c :: cs) | inr e => inr e end
+              | inr e => inr e
+              | inl c => match map_cmds_old r with inl cs => inl (c :: cs) | inr e => inr e end
               end
   end.
 
-Definition plan_tokens_fixed (toks : list token) : cmdline + perr2 :=
+Definition plan_tokens_old (toks : list token) : cmdline + perr :=
   let '(envs, toks) := drain_envs toks [] in
   let n := length toks in
   let is_bg := (Nat.ltb 1 n) && match rev toks with (tg, w) :: _ => tag_eqb tg TNone && str_eqb w [c_amp] | [] => false end in
   let toks := if is_bg then removelast toks else toks in
-  match map_cmds_fixed (split_pipes toks [] []) with
+  match map_cmds_old (split_pipes toks [] []) with
   | inl cs => inl (mkcl cs envs is_bg)
   | inr e => inr e
   end.
 
-Inductive stage_out2 := SErr2 (e : perr2) | SPlan2 (cl : cmdline) (f : fw).
-Definition plan_and_lookup_fixed (arith : bool) (toks : list token) : stage_out2 :=
-  match plan_tokens_fixed toks with
-  | inr e => SErr2 e
-  | inl cl => SPlan2 cl (first_word_lookups arith cl)
+Definition plan_and_lookup_old (arith : bool) (toks : list token) : stage_out :=
+  match plan_tokens_old toks with
+  | inr e => SErr e
+  | inl cl => SPlan cl (first_word_lookups arith cl)
   end.
